@@ -3,7 +3,9 @@
      orbit4 bh bk bi bl nh nk ni nl    -> same with four indices
      tensor nx ny nz mx my mz          -> the nine components of getOrientationTensor(n, m)
      schmid3 dx dy dz bx by bz nx ny nz -> "N DD BB NN": S = N / (DD * sqrt(BB) * sqrt(NN))
-     schmid4 (4 d) (4 b) (4 n)         -> same (rationals p/q) with the hexagonal lattice -/
+     schmid4 (4 d) (4 b) (4 n)         -> same (rationals p/q) with the hexagonal lattice
+     ranks3 (bx by bz nx ny nz)*        -> rank of every ordered pair of the listed systems, row-major
+     ranks4 (8 indices)*                -> same for four indices -/
 import TfelVerif.C56.Model
 open TfelVerif.C56
 
@@ -12,6 +14,17 @@ def showV4 (v : V4 Int) : String := s!"{v.h},{v.k},{v.i},{v.l}"
 def showRat (q : Rat) : String := s!"{q.num}/{q.den}"
 
 def ints (ws : List String) : Option (List Int) := ws.mapM String.toInt?
+
+def chunk3 : List Int → Option (List Sys3)
+  | [] => some []
+  | bx :: by_ :: bz :: nx :: ny :: nz :: r => (chunk3 r).map fun l => ((⟨bx, by_, bz⟩, ⟨nx, ny, nz⟩) :: l)
+  | _ => none
+
+def chunk4 : List Int → Option (List Sys4)
+  | [] => some []
+  | bh :: bk :: bi :: bl :: nh :: nk :: ni :: nl :: r =>
+    (chunk4 r).map fun l => ((⟨bh, bk, bi, bl⟩, ⟨nh, nk, ni, nl⟩) :: l)
+  | _ => none
 
 def answer (line : String) : String :=
   match (line.trimAscii.toString.splitOn " ").filter (· ≠ "") with
@@ -41,6 +54,14 @@ def answer (line : String) : String :=
       let b : V4 Int := ⟨bh, bk, bi, bl⟩
       let n : V4 Int := ⟨nh, nk, ni, nl⟩
       s!"{showRat (dotAA d b * dotPA n d)} {showRat (dotAA d d)} {showRat (dotAA b b)} {showRat (dotPP n n)}"
+    | "ranks3", some l =>
+      match chunk3 l with
+      | some gs => " ".intercalate ((rankMatrix3 gs).map toString)
+      | none => "bad-op"
+    | "ranks4", some l =>
+      match chunk4 l with
+      | some gs => " ".intercalate ((rankMatrix4 gs).map toString)
+      | none => "bad-op"
     | _, _ => "bad-op"
   | [] => "bad-op"
 
